@@ -113,13 +113,22 @@ for kind, t in texts:
             doc = json.loads(t)
             doc["payload"][section] = {k + MARK: dict(v, uid=v["uid"] + MARK) for k, v in doc["payload"][section].items()}
             safe(cls().loads, json.dumps(doc))
-for seed in (TI.seed_nested, TI.seed_layered):
+for seed in (TI.seed_nested, TI.seed_layered, TI.seed_flat):
     t = TI.dumps(TI.build(seed()))
     for ver in ("1.2", "0.3"):
         secs = legacy.treeinfo(ini.parse(t), ver)[0] if ver != "1.2" else [(n, [(k, v) for k, v in o if not k.startswith(";")]) for n, o in ini.parse(t)]
-        secs = [(n.replace("Server", "Server" + MARK), [(k, (v + MARK) if n != "header" and not v[:1].isdigit() and v not in ("true", "false") else v) for k, v in o]) for n, o in secs]
-        safe(ti.TreeInfo().loads, render(secs))
+        names = [n for n, _ in secs if n != "header"]
+        for target in names + ["*"]:                                  # one tainted section at a time, then all of them
+            new = [(n, [(k, (v + MARK) if (target in (n, "*")) and n != "header" and not v[:1].isdigit() and v not in ("true", "false") else v)
+                        for k, v in o]) for n, o in secs]
+            safe(ti.TreeInfo().loads, render(new))
+        # the arch and the UIDs also name sections: taint value and section names consistently
+        new = [(n.replace("x86_64", "x86_64" + MARK), [(k, v.replace("x86_64", "x86_64" + MARK)) for k, v in o]) for n, o in secs]
+        safe(ti.TreeInfo().loads, render(new))
+        new = [(n.replace("Server", "Server" + MARK), [(k, v.replace("Server", "Server" + MARK)) for k, v in o]) for n, o in secs]
+        safe(ti.TreeInfo().loads, render(new))
     safe(ti.TreeInfo().loads, "[general]\nfamily = Foo%s\nversion = 1%s\narch = x86_64\nvariant = Server%s\naddons = HA%s\n" % (MARK, MARK, MARK, MARK))
+    safe(ti.TreeInfo().loads, "[general]\nfamily = Foo\nversion = 1\narch = x86_64%s\nvariant = Server\n[images-xen-x86_64%s]\nkernel = k\n" % (MARK, MARK))
 tainted = sorted([p, f] for (p, f) in seen if MARK in p)
 print("TAINTED " + json.dumps(tainted))
 print("INVENTORY " + json.dumps(sorted([p, f, sorted(h)] for (p, f), h in seen.items() if MARK not in p)))
@@ -356,6 +365,21 @@ try:
     elif name == "uid": productmd.modules.Modules.parse_uid(value)
     elif name == "compose_id": ci.get_date_type_respin(value)
     elif name == "label": ci.verify_label(value)
+    elif name.startswith("images.number:"):
+        import productmd.images
+        from mc.build import im as IM
+        text = IM.build(IM.seed_one()).dumps()
+        field = name.split(":")[1]
+        import re as _re
+        text = _re.sub(r'"%s": [0-9]+' % field, '"%s": %s' % (field, value), text, count=1)
+        productmd.images.Images().loads(text)
+    elif name == "treeinfo.timestamp":
+        from mc.build import ti as TI
+        text = TI.dumps(TI.build(TI.seed_flat())).replace("build_timestamp = 1417653911", "build_timestamp = %s" % value)
+        ti.TreeInfo().loads(text)
+    elif name == "discinfo.timestamp":
+        import productmd.discinfo
+        productmd.discinfo.DiscInfo().loads("%s\nFedora 21\nx86_64\nALL\n" % value)
     elif name == "treeinfo00.version":
         ti.TreeInfo().loads("[general]\nfamily = Foo\nversion = %s\narch = x86_64\nvariant = Server\n" % value)
 except Exception:
@@ -370,6 +394,9 @@ DOC_PROBES = [
     ("label", "RC-" + "1" * 44 + "!"), ("release.version", "1" * 47 + "!"), ("release.version", "1." * 23 + "!"),
     ("compose.id", "1" * 47), ("compose.date", "1" * 48), ("compose.label", "RC-" + "1" * 44 + "x"),
     ("variant.id", "a" * 47 + "-"), ("treeinfo00.version", "21_" + "0" * 40 + "beta"), ("treeinfo00.version", "1." * 22 + "x"),
+    # number literals: a few characters that denote an astronomically large value
+    ("images.number:mtime", "1E+999999"), ("images.number:size", "1e99999999"), ("images.number:disc_number", "9" * 40),
+    ("images.number:mtime", "1E+4000"), ("treeinfo.timestamp", "1e999999"), ("treeinfo.timestamp", "9" * 45), ("discinfo.timestamp", "1e9999999"),
 ]
 
 
@@ -462,6 +489,20 @@ def fam_ti_addon_chain(n, dup):
     return "ti", "\n".join(out) + "\n"
 
 
+def fam_ti_shared_addons(n, dup=False):
+    """1.x tree: two variants per level, BOTH naming the same two addon sections of the next level (UIDs cannot align with both)"""
+    out = ["[header]", "type = productmd.treeinfo", "version = 1.2", "[release]", "name = F", "short = F", "version = 1",
+           "[tree]", "arch = x86_64", "build_timestamp = 1", "platforms = x86_64", "variants = L0a,L0b"]
+    for lvl in range(n):
+        for side in "ab":
+            uid = "L%d%s" % (lvl, side)
+            kind = "variant" if lvl == 0 else "addon"
+            out += ["[%s-%s]" % (kind, uid), "id = %s" % uid, "uid = %s" % uid, "name = x", "type = %s" % kind]
+            if lvl < n - 1:
+                out.append("addons = L%da,L%db" % (lvl + 1, lvl + 1))
+    return "ti", "\n".join(out) + "\n"
+
+
 def fam_ti_interpolation(n, dup=False):
     """ConfigParser value interpolation: a chain of 9 options each naming the previous one n times"""
     out = ["[header]", "type = productmd.treeinfo", "version = 1.2", "[release]", "name = F", "short = F", "version = 1",
@@ -489,6 +530,7 @@ STRUCT_FAMILIES = {
     "treeinfo-general-addons-list": (fam_ti_general_addons, False), "treeinfo00-sections-by-id": (fam_ti_sections_by_id, False),
     "treeinfo-addon-chain": (fam_ti_addon_chain, False), "treeinfo-addon-chain-listed-twice": (fam_ti_addon_chain, True),
     "treeinfo-interpolation-fanout": (fam_ti_interpolation, False), "images-many-in-cell": (fam_im_many, False),
+    "treeinfo-shared-addon-sections": (fam_ti_shared_addons, False),
 }
 STEP_CAP = 250000
 
@@ -690,7 +732,7 @@ def describe(tier):
                 "class alphabet at lengths 8..48 in the step-counting matcher; (d) for suspicious patterns (ambiguity witness or step budget "
                 "exceeded) the worst family in the real engine in a killable subprocess.  Judged: super-polynomial = growth ratio >= 1.5 per "
                 "2 characters over >= 6 consecutive lengths in the real engine; stall = a <= 48-character input needs > 2 s.  Plus: documents whose every string carries a marker with regex metacharacters - no pattern handed to re may "
-                "contain it (data-built patterns); 10 structural pump families (variant chains with children listed once / twice, wide child "
+                "contain it (data-built patterns); 11 structural pump families (variant chains with children listed once / twice, wide child "
                 "lists, prefix-related 0.9 variants, pre-productmd addon lists and sections matched by id, addon chains, interpolation fan-out, "
                 "many images in a cell) whose loader work is counted in Python calls per size parameter (exponential = the growth ratio stays >= 1.7 over the last 5 "
                 "sizes without falling off; for a polynomial it shrinks towards 1); 21 "
